@@ -73,8 +73,9 @@ def gen_liquid(T, I, rng, n):
         t = rng.choice([0.01, 350.0]) if r < 0.08 else rng.uniform(0.01, 350.0)
         ps = max(psat_both(T, I, t))
         r = rng.random()
-        if r < 0.10: p = ps * (1 + 10 ** rng.uniform(-12, -3))
-        elif r < 0.18: p = 100e6
+        if r < 0.05: p = ps                                   # the saturation pressure exactly
+        elif r < 0.10: p = ps * (1 + 10 ** rng.uniform(-12, -3))
+        elif r < 0.18: p = 100e6                               # the upper pressure limit exactly
         elif r < 0.60: p = math.exp(rng.uniform(math.log(ps), math.log(100e6)))
         else: p = rng.uniform(ps, 100e6)
         out.append((t, p))
@@ -82,14 +83,15 @@ def gen_liquid(T, I, rng, n):
 
 
 def steam_pmax(T, I, t):
-    """upper pressure limit common to supst of both modules at temperature t"""
-    if t <= 350.0: return min(psat_both(T, I, t))
-    if t <= I.tcritical: return min(min(psat_both(T, I, t)), float(T.b23p(t)), float(I.b23p(t)))
-    if t <= 590.0:
+    """upper pressure limit common to supst of both modules at temperature t (never above 100 MPa:
+    b23p(590) is 100000000.00003 Pa in both modules)"""
+    if t <= 350.0: m = min(psat_both(T, I, t))
+    elif t <= I.tcritical: m = min(min(psat_both(T, I, t)), float(T.b23p(t)), float(I.b23p(t)))
+    elif t <= 590.0:
         m = min(float(T.b23p(t)), float(I.b23p(t)))
         if t <= T.Tc1_C: m = min(m, float(T.sat(t)))
-        return m
-    return 100e6
+    else: m = 100e6
+    return min(m, 100e6)
 
 
 def gen_steam(T, I, rng, n):
@@ -99,7 +101,8 @@ def gen_steam(T, I, rng, n):
         t = rng.choice([0.01, 350.0, 590.0, 800.0]) if r < 0.08 else rng.uniform(0.01, 800.0)
         pm = steam_pmax(T, I, t)
         r = rng.random()
-        if r < 0.15: p = pm * (1 - 10 ** rng.uniform(-12, -3))
+        if r < 0.05: p = pm                                   # the upper limit (saturation / B23 / 100 MPa) exactly
+        elif r < 0.15: p = pm * (1 - 10 ** rng.uniform(-12, -3))
         elif r < 0.60: p = math.exp(rng.uniform(math.log(100.0), math.log(pm)))
         else: p = rng.uniform(0.0, pm)
         if p <= 0.0: p = 100.0
@@ -114,7 +117,11 @@ def agree_liquid(T, I, ctx, n):
     for (t, p) in gen_liquid(T, I, ctx.rng, n):
         ctx.count((name, t, p))
         a, b = call(T.cowat, t, p), call(I.cowat, t, p)
-        if not ispair(b): continue            # IAPWS-97's own behaviour is C14's business
+        # inside the common range (0.01..350 degC, saturation..100 MPa, limits included) BOTH routines must answer:
+        # with one side missing there is nothing to agree with
+        if not ispair(b):
+            ctx.failure(name, 'iapws97.cowat:no-value-in-common-range', {'fn': 'agree_liquid', 't': t, 'p': p}, 'IAPWS97.cowat -> %r (t2thermo.cowat -> %r)' % (b, a), 'a density and an energy from both formulations')
+            continue
         if not ispair(a):
             ctx.failure(name, 'cowat:no-value-in-range', {'fn': 'agree_liquid', 't': t, 'p': p}, repr(a), 'a density and an energy')
             continue
@@ -133,7 +140,9 @@ def agree_steam(T, I, ctx, n):
     for (t, p) in gen_steam(T, I, ctx.rng, n):
         ctx.count((name, t, p))
         a, b = call(T.supst, t, p), call(I.supst, t, p)
-        if not ispair(b): continue
+        if not ispair(b):
+            ctx.failure(name, 'iapws97.supst:no-value-in-common-range', {'fn': 'agree_steam', 't': t, 'p': p}, 'IAPWS97.supst -> %r (t2thermo.supst -> %r)' % (b, a), 'a density and an energy from both formulations')
+            continue
         if not ispair(a):
             ctx.failure(name, 'supst:no-value-in-range', {'fn': 'agree_steam', 't': t, 'p': p}, repr(a), 'a density and an energy')
             continue
@@ -155,7 +164,9 @@ def agree_sat(T, I, ctx, n):
         ctx.count((name, t))
         for bounds in (False, True):
             a, b = call(T.sat, t, bounds), call(I.sat, t)
-            if not isnum(b): continue
+            if not isnum(b):
+                ctx.failure(name, 'iapws97.sat:no-value-in-common-range', {'fn': 'agree_sat', 't': t, 'bounds': bounds}, 'IAPWS97.sat -> %r' % (b,), 'a pressure from both formulations')
+                continue
             if not isnum(a):
                 ctx.failure(name, 'sat:no-value-in-range', {'fn': 'agree_sat', 't': t, 'bounds': bounds}, repr(a), 'a pressure')
                 continue
